@@ -490,6 +490,7 @@ package hermes
 // C01  adaptive sub-daily time stepping in the day loop of Run: the sub-steps of a day add up to exactly one day
 // (ghost wsum accumulates the step length handed to Water), every call of Water gets a legal step.
 //@ region HermesSession.Run$1#substeps from "FSCS := 0.0" to "for SUBD := 1; SUBD <= int(STEPS); SUBD++ {"
+//@   return-ensures errorpath: !isnil(result0)
 //@   serves C01, C11
 //@   opaque Soiltemp PhytoOut Nitro
 //@   ghost var wsum real
@@ -942,6 +943,7 @@ package hermes
 // fertilisation of the day (manual schedule): applied iff due (the day after the scheduled date, first sub-step), in the
 // amounts of the schedule entry under the cursor, cursor advanced by one; otherwise nothing changes.
 //@ region Nitro#fert from "if !g.AUTOFERT {" to "if !g.AUTOFERT {"
+//@   return-ensures errorpath: !isnil(result1)
 //@   serves C10, C07, C16
 //@   define cur() = old(g.NDG.Index)
 //@   define due() = !g.AUTOFERT && zeit == old(g.ZTDG[g.NDG.Index]) + 1 && subd == 1
@@ -957,6 +959,7 @@ package hermes
 
 // tillage of the day: when due the pools are mixed evenly down to the tillage depth, which preserves their sums
 //@ region Nitro#tillage from "if zeit == g.EINTE[g.NTIL.Index+1]+1 && subd == 1 {" to "if zeit == g.EINTE[g.NTIL.Index+1]+1 && subd == 1 {"
+//@   return-ensures errorpath: !isnil(result1)
 //@   serves C10, C07, C02
 //@   define due() = zeit == old(g.EINTE[g.NTIL.Index+1]) + 1 && subd == 1
 //@   define depth() = old(g.EINT[g.NTIL.Index])
@@ -1098,6 +1101,7 @@ package hermes
 // calendar of the day loop: the day of year advances by one, rolls over after the last day of the loaded year, and a failing
 // weather loader ends the run (ghost werr records a loader error; reaching the end of the region means there was none)
 //@ region HermesSession.Run$1#calendar from "g.TAG.Add(g.DT.Index)" to "if g.TAG.Num == g.DT.Num {"
+//@   return-ensures errorpath: !isnil(result0)
 //@   serves C04, C05, C11
 //@   opaque WetterK
 //@   ghost var werr bool = false
@@ -1127,6 +1131,7 @@ package hermes
 
 // first simulation year: every reader/loader error ends the run before Init
 //@ region HermesSession.Run$1#firstyear from "if driConfig.WeatherFileFormat == 1 { yearEnde" to "if driConfig.WeatherFileFormat == 1 { yearEnde"
+//@   return-ensures errorpath: !isnil(result0)
 //@   serves C04, C11
 //@   opaque WetterK ReadWeatherCSV ReadWeatherCZ
 //@   ghost var werr bool = false
@@ -1214,6 +1219,7 @@ package hermes
 // rotation cursor at harvest: only moves forward, by one entry (two when the next crop is skipped because its sowing
 // window has already closed under automatic management); a crop record is produced for every harvested crop
 //@ region Nitro#harvest from "if zeit == g.ERNTE[g.AKF.Index] && subd == 1 {" to "if zeit == g.ERNTE[g.AKF.Index] && subd == 1 {"
+//@   return-ensures errorpath: !isnil(result1)
 //@   serves C16, C05
 //@   opaque resid pinit fillBBCHgaps convertToDate
 //@   ghost var hm int
@@ -1310,16 +1316,15 @@ package hermes
 //@   invariant frame: g.C1 == pre(g.C1) && g.WURZ == pre(g.WURZ) && g.GRW == pre(g.GRW)
 
 // sowing an annual crop clears every stage sum and stage-entry day of the previous crop (both readers)
-//@ region ReadCropParamYml#reset from "maxOrgans := 5" to "if !g.DAUERKULT { ResetStages(g)"
+//@ region ReadCropParamYml#reset from "maxOrgans := 5" before "if g.NRKOM != len(cropParam.CompartmentNames) {"
 //@   serves C09
+//@   unroll-loops 10
 //@   ensures cleared: !g.DAUERKULT ==> forall(s, 0, 10, g.SUM[s] == 0 && g.DEV[s] == 0) && g.PHYLLO == 0 && g.VERNTAGE == 0
 //@ region ReadCropParamClassic#reset from "if !g.DAUERKULT { ResetStages(g)" to "if !g.DAUERKULT { ResetStages(g)"
 //@   serves C09
 //@   ensures cleared: !g.DAUERKULT ==> forall(s, 0, 10, g.SUM[s] == 0 && g.DEV[s] == 0) && g.PHYLLO == 0 && g.VERNTAGE == 0
-//@ loop ReadCropParamYml@"for i := 0; i < maxOrgans; i++ { for i2 := 0; i2 < maxStages; i2++ {"
-//@   unroll 5
-//@ loop ReadCropParamYml@"for i2 := 0; i2 < maxStages; i2++ { g.SUM[i2] = 0 g.DEV[i2] = 0"
-//@   unroll 10
+//@ loop ReadCropParamYml@"for _, organ := range l.AboveGroundOrgans {"
+//@   invariant none: true
 //@ loop ReadCropParamClassic@"for i := 0; i < 5; i++ { for i2 := 0; i2 < 10; i2++ {"
 //@   unroll 5
 //@ loop ReadCropParamClassic@"for i2 := 0; i2 < 10; i2++ { g.SUM[i2] = 0 g.DEV[i2] = 0"
@@ -1351,6 +1356,7 @@ package hermes
 
 // crop record: written iff Nitro reports a finished crop cycle (Nitro#harvest/post:record), once per report
 //@ region HermesSession.Run$1#croprecord from "finished, err := Nitro(WDT, SUBD, ZEIT, &g, &nitroSharedVars, &nitroSharedBBBVars, &herPath, &cropOut)" to "if finished {"
+//@   return-ensures errorpath: !isnil(result0)
 //@   serves C05
 //@   opaque Nitro
 //@   ghost var crops int
@@ -1431,6 +1437,7 @@ package hermes
 // Reported error classes end the run with an error, they never abort the process and never let the run continue.
 // soil texture not in the parameter table: Input only goes on when every horizon's texture is one of the table's
 //@ region Input#texturecheck from "for horizon := 0; horizon < currentSoil.AZHO; horizon++ {" to "for horizon := 0; horizon < currentSoil.AZHO; horizon++ {"
+//@   return-ensures errorpath: !isnil(result0)
 //@   serves C11
 //@   safety[C11] nofatal
 //@   ensures listed: forall(h, 0, currentSoil.AZHO, exists(t, 0, len(l.ValidSoilTexture), currentSoil.BART[h] == l.ValidSoilTexture[t]))
@@ -1444,6 +1451,7 @@ package hermes
 // texture of the deepest horizon not in the capillary-rise table: Hydro returns an error for this run
 // (reading past the end of the table must not abort the whole batch process)
 //@ region Hydro#parcap from "if horizon == g.AZHO {" to "if horizon == g.AZHO {"
+//@   return-ensures errorpath: !isnil(result1)
 //@   serves C11
 //@   safety[C11] nofatal
 //@   ensures done: true
@@ -1472,7 +1480,7 @@ package hermes
 
 // tillage between sowing and harvest: Nitro only goes on when the next tillage date is not inside the growing
 // period of the current crop; otherwise it returns a non-nil error (which Run returns, see Run$1#nitroerr)
-//@ region Nitro#tillagedate from "if g.SAAT[g.AKF.Index] > 0 && g.EINTE[g.NTIL.Index+1] > g.SAAT[g.AKF.Index]" to "if g.SAAT[g.AKF.Index] > 0 && g.EINTE[g.NTIL.Index+1] > g.SAAT[g.AKF.Index]"
+//@ region Nitro#tillagedate between "if subd == 1 { if zeit == g.EINTE[g.NTIL.Index+1] { if g.SAAT[g.AKF.Index] > 0 && g.ERNTE[g.AKF.Index] == 0 {" and "if zeit == g.EINTE[g.NTIL.Index+1]+1 && subd == 1 {"
 //@   serves C11
 //@   opaque KalenderConverter$1
 //@   ensures outside: !(g.SAAT[g.AKF.Index] > 0 && g.EINTE[g.NTIL.Index+1] > g.SAAT[g.AKF.Index] && g.EINTE[g.NTIL.Index+1] <= g.ERNTE[g.AKF.Index])
@@ -1727,7 +1735,6 @@ package hermes
 //@   after call g.ToCropType: ghost rowcrop = res0
 //@   before stmt "if g.AUTOMAN {": ghost entered = true
 //@   requires entry: 0 <= SLFINDindex && SLFINDindex < 299
-//@   ensures owncrop: entered ==> rowcrop == old(g.FRUCHT[SLFINDindex])
 //@   exit-ensures owncropx: entered ==> rowcrop == old(g.FRUCHT[SLFINDindex])
 //@ region Input#automanrow2 from "crpman := autoScanner.Text()" to "$end" within "if g.AUTOHAR || g.AUTOFERT { autfil := hPath.auto"
 //@   serves C16
@@ -1737,7 +1744,6 @@ package hermes
 //@   after call g.ToCropType: ghost rowcrop = res0
 //@   before stmt "if g.ODU[SLFINDindex] == 1 {": ghost entered = true
 //@   requires entry: 0 <= SLFINDindex && SLFINDindex < 299
-//@   ensures owncrop: entered ==> rowcrop == old(g.FRUCHT[SLFINDindex])
 //@   exit-ensures owncropx: entered ==> rowcrop == old(g.FRUCHT[SLFINDindex])
 
 // C18  at sowing the override is applied to the freshly read parameters, whichever crop file format was read
